@@ -610,13 +610,18 @@ async def _activity(env, ctx, spec):
                             info['left'][2]))
         raise
     env.log(ctx.name, 'finish')
-    env.returned[ctx.name] = repr(spec.get('result'))
+    result = spec.get('result')
+    if isinstance(result, dict) and 'exception' in result:
+        # an exception *instance* handed back as a plain result (a report value), not raised
+        result = (TaskCancelled(None, 'reported') if result['exception'] == 'cancelled'
+                  else ValueError('a result, not a failure'))
+    env.returned[ctx.name] = repr(result)
     env.shadow['done'][spec['name']] = True
     if ctx.parent_key is not None and env.sess.armed and env.sess.stack:
         info = env.scope_inst.get(ctx.parent_key)
         if info is not None:
             info['ends'].append((ctx.name, 'finished', None, None, env.sess.now(), 'finished'))
-    return spec.get('result')
+    return result
 
 
 def spawn(env, ctx, scope, key, child):
